@@ -1,11 +1,1142 @@
-//! C19: not built yet
+//! C19: broker admission (valid authenticated CONNECT only), one session per client id,
+//! never more live connections than `max_connections`.
+//!
+//! Deciding substrate S6 (full stack: the real per-connection task with `mqtt_connect`,
+//! `handle_auth`, `RemoteLink::new`, the router's `handle_new_connection`) plus the router
+//! half on S4 (`s4parts::c19_plan`).
+//!
+//! Part A (admission): a first packet is written to a listener (protocol version x
+//! authentication configuration); the oracle is the predicate `admissible` below, written
+//! from the statement; observed are the CONNACK decoded with the client crate's codec, an
+//! effect probe (is a SUBSCRIBE answered, does a PUBLISH reach a witness subscriber) and the
+//! router snapshot (`connection_map`).
+//! Part B (uniqueness / limit): connect / close / DISCONNECT / take-over histories, with
+//! concurrent bursts, against `max_connections` in {1,2,3}; after every step every
+//! connection the model holds live is pinged: the number of connections that answer never
+//! exceeds the maximum, no two of them share a client id, and a valid CONNECT is refused
+//! only when the limit is reached.
+use super::s4common;
+use super::s4parts;
 use super::{Meta, Prop};
-use crate::common::{Ctx, Stats};
+use crate::common::{fnv, judge, sharded, Ctx, Judged, Record, Rng, Stats};
+use crate::gen::canon::{self, Canon, Dir, Sizes};
+use crate::sub::s6::{self, helper_client, Auth, Broker, ConnOutcome, Got, ListenerCfg, Raw, Rt, S6Err, TaskEnd, Ver};
+use serde::{Deserialize, Serialize};
+use serde_json::{json, Value};
 
-fn run(_ctx: &Ctx) -> Stats {
-    let mut s = Stats::default();
-    s.inconclusive.push("check not built yet".into());
-    s
+// ---------------------------------------------------------------- listeners
+
+fn stat_map() -> Vec<(String, String)> {
+    vec![("alice".into(), "wonder".into()), ("bob".into(), "builder".into())]
+}
+fn ext_set() -> Vec<(String, String)> {
+    vec![("alice".into(), "wonder".into()), ("carol".into(), "sing".into())]
+}
+
+const AUTHS: usize = 4;
+
+fn auth_cfg(i: usize) -> Auth {
+    match i {
+        0 => Auth::None,
+        1 => Auth::Static(stat_map()),
+        2 => Auth::External(ext_set()),
+        _ => Auth::Both {
+            stat: stat_map(),
+            ext: ext_set(),
+        },
+    }
+}
+
+/// listener index = version index * AUTHS + auth index
+fn listeners() -> Vec<ListenerCfg> {
+    let mut v = vec![];
+    for ver in [Ver::V4, Ver::V5] {
+        for a in 0..AUTHS {
+            v.push(ListenerCfg::with_auth(ver, auth_cfg(a)));
+        }
+    }
+    v
+}
+
+fn listener_index(v5: bool, auth: usize) -> usize {
+    (v5 as usize) * AUTHS + auth
+}
+
+// ---------------------------------------------------------------- part A: cases
+
+#[derive(Clone, Debug, PartialEq, Eq, Serialize, Deserialize)]
+pub enum First {
+    /// a well-formed CONNECT of the listener's version
+    Connect,
+    /// a well-formed CONNECT of the other protocol version
+    OtherVersion,
+    /// CONNECT with this protocol name instead of "MQTT"
+    BadName(String),
+    /// CONNECT with this protocol level
+    BadLevel(u8),
+    /// a well-formed packet of another type
+    OtherPacket(u8),
+    /// only the first k bytes of a well-formed CONNECT, then end of input
+    Truncated(usize),
+    /// arbitrary bytes, then end of input
+    Garbage(Vec<u8>),
+}
+
+#[derive(Clone, Debug, PartialEq, Eq, Serialize, Deserialize)]
+pub struct AdmCase {
+    pub n: u64,
+    pub v5: bool,
+    pub auth: usize,
+    pub first: First,
+    pub client_id: String,
+    pub clean: bool,
+    pub keep_alive: u16,
+    pub user: Option<String>,
+    pub pass: Option<String>,
+    pub will: bool,
+    /// number of writes the first packet is split into
+    pub chunks: usize,
+    /// the probe is written behind the CONNECT without waiting for the CONNACK
+    pub pipelined: bool,
+}
+
+#[derive(Clone, Copy, Debug, PartialEq, Eq)]
+enum Verdict {
+    Admissible,
+    Inadmissible(&'static str),
+    /// the statement does not decide (both mechanisms configured and they disagree)
+    Open,
+}
+
+fn accepts(pairs: &[(String, String)], user: &str, pass: &str) -> bool {
+    pairs.iter().any(|(u, p)| u == user && p == pass)
+}
+
+/// Credentials against the listener's configuration, from the statement: with credentials or
+/// a callback configured, the login must be present and accepted by the configuration.
+fn auth_verdict(auth: &Auth, user: &Option<String>, pass: &Option<String>) -> Verdict {
+    if *auth == Auth::None {
+        return Verdict::Admissible;
+    }
+    let Some(user) = user else {
+        return Verdict::Inadmissible("login-absent");
+    };
+    let pass = pass.clone().unwrap_or_default();
+    let (s, e) = match auth {
+        Auth::None => unreachable!(),
+        Auth::Static(m) => (Some(accepts(m, user, &pass)), None),
+        Auth::External(x) => (None, Some(accepts(x, user, &pass))),
+        Auth::Both { stat, ext } => (Some(accepts(stat, user, &pass)), Some(accepts(ext, user, &pass))),
+    };
+    match (s, e) {
+        (Some(true), None) | (None, Some(true)) | (Some(true), Some(true)) => Verdict::Admissible,
+        (Some(false), None) | (None, Some(false)) | (Some(false), Some(false)) => Verdict::Inadmissible("credentials-rejected"),
+        _ => Verdict::Open,
+    }
+}
+
+/// The statement's admission predicate
+fn admissible(c: &AdmCase) -> Verdict {
+    match &c.first {
+        First::Connect => {}
+        First::OtherVersion => return Verdict::Inadmissible("connect-of-other-version"),
+        First::BadName(_) => return Verdict::Inadmissible("wrong-protocol-name"),
+        First::BadLevel(_) => return Verdict::Inadmissible("wrong-protocol-level"),
+        First::OtherPacket(_) => return Verdict::Inadmissible("first-packet-not-connect"),
+        First::Truncated(_) => return Verdict::Inadmissible("truncated-connect"),
+        First::Garbage(_) => return Verdict::Inadmissible("garbage"),
+    }
+    if c.keep_alive == 0 {
+        return Verdict::Inadmissible("zero-keep-alive");
+    }
+    if c.client_id.chars().any(|ch| "+$#/".contains(ch)) {
+        return Verdict::Inadmissible("client-id-metacharacter");
+    }
+    if c.client_id.is_empty() && !c.clean {
+        return Verdict::Inadmissible("empty-client-id-without-clean-session");
+    }
+    auth_verdict(&auth_cfg(c.auth), &c.user, &c.pass)
+}
+
+fn connect_canon(c: &AdmCase, version: u8) -> Canon {
+    let mut k = s6::connect(version, &c.client_id, c.clean, c.keep_alive);
+    k = s6::with_login(k, c.user.as_deref(), c.pass.as_deref());
+    if c.will {
+        k = s6::with_will(k, &format!("c19will/{}", c.n), b"w", 0, false, vec![]);
+    }
+    k
+}
+
+/// The bytes of the first packet
+fn first_bytes(c: &AdmCase, rng: &mut Rng) -> Vec<u8> {
+    let v = if c.v5 { 5 } else { 4 };
+    match &c.first {
+        First::Connect => canon::encode(&connect_canon(c, v)),
+        First::OtherVersion => canon::encode(&connect_canon(c, if c.v5 { 4 } else { 5 })),
+        First::BadName(name) => {
+            // re-encode with another protocol name: variable header starts right behind the fixed header
+            let good = canon::encode(&connect_canon(c, v));
+            let mut i = 1;
+            while good[i] & 0x80 != 0 {
+                i += 1;
+            }
+            let body = &good[i + 1..];
+            // body = 00 04 'M' 'Q' 'T' 'T' level ...
+            let mut nb = vec![0, name.len() as u8];
+            nb.extend_from_slice(name.as_bytes());
+            nb.extend_from_slice(&body[6..]);
+            let mut out = vec![0x10];
+            let mut x = nb.len();
+            loop {
+                let mut b = (x % 128) as u8;
+                x /= 128;
+                if x > 0 {
+                    b |= 0x80;
+                }
+                out.push(b);
+                if x == 0 {
+                    break;
+                }
+            }
+            out.extend_from_slice(&nb);
+            out
+        }
+        First::BadLevel(l) => {
+            let mut good = canon::encode(&connect_canon(c, v));
+            let mut i = 1;
+            while good[i] & 0x80 != 0 {
+                i += 1;
+            }
+            good[i + 1 + 6] = *l;
+            good
+        }
+        First::OtherPacket(t) => {
+            let dir = if canon::is_c2s(*t, v) { Dir::C2S } else { Dir::S2C };
+            canon::encode(&canon::random(rng, v, *t, dir, &Sizes::small()))
+        }
+        First::Truncated(k) => {
+            let good = canon::encode(&connect_canon(c, v));
+            good[..(*k).min(good.len() - 1)].to_vec()
+        }
+        First::Garbage(b) => b.clone(),
+    }
+}
+
+#[derive(Clone, Debug, Default, Serialize)]
+pub struct AdmObs {
+    pub first_hex: String,
+    pub outcome: String,
+    pub connack_success: bool,
+    pub suback: bool,
+    pub in_connection_map: bool,
+    pub witness_got_probe: bool,
+    pub task: String,
+    pub task_panic_site: Option<String>,
+}
+
+struct AdmCtx<'a> {
+    b: &'a Broker,
+    witness: &'a mut Raw,
+    publisher: &'a mut Raw,
+}
+
+async fn run_adm(cx: &mut AdmCtx<'_>, c: &AdmCase, bytes: &[u8], expect_admission: bool) -> Result<AdmObs, S6Err> {
+    let b = cx.b;
+    let mut obs = AdmObs {
+        first_hex: bytes.iter().take(48).map(|x| format!("{x:02x}")).collect::<String>(),
+        ..Default::default()
+    };
+    let v = if c.v5 { 5 } else { 4 };
+    let mut x = b.open(listener_index(c.v5, c.auth));
+    x.auto_ack = false;
+    let probe_topic = format!("wit/{}", c.n);
+    let probe_payload = format!("probe:{}", c.n).into_bytes();
+    let mut sub = Canon::empty(v, canon::SUBSCRIBE);
+    sub.pkid = 1;
+    sub.filters = vec![(format!("probe{}", c.n), 0)];
+    let mut publ = Canon::empty(v, canon::PUBLISH);
+    publ.topic = probe_topic.clone().into_bytes();
+    publ.payload = probe_payload.clone();
+    let mut probe = canon::encode(&sub);
+    probe.extend_from_slice(&canon::encode(&publ));
+    probe.extend_from_slice(&canon::encode(&Canon::empty(v, canon::PINGREQ)));
+
+    // the first packet, possibly in several writes
+    let chunks = c.chunks.clamp(1, bytes.len().max(1));
+    let step = bytes.len().div_ceil(chunks).max(1);
+    for part in bytes.chunks(step) {
+        x.write(part).await?;
+        tokio::task::yield_now().await;
+    }
+    let complete_packet = !matches!(c.first, First::Truncated(_) | First::Garbage(_));
+    // (nothing may follow an incomplete first packet: further bytes would complete its frame)
+    if c.pipelined && complete_packet {
+        x.write(&probe).await?;
+    }
+    if !complete_packet {
+        // an incomplete first packet: end of input instead of waiting for the connection timeout
+        x.half_close().await;
+    }
+    // CONNACK or end of stream
+    let out = x.connack().await?;
+    obs.outcome = out.brief();
+    obs.connack_success = out.accepted();
+    if obs.connack_success {
+        if !c.pipelined && complete_packet {
+            x.write(&probe).await?;
+        }
+        // SUBACK and PINGRESP, or end of stream
+        loop {
+            match x.next().await? {
+                Got::Packet(p) if p.ptype == canon::SUBACK => obs.suback = true,
+                Got::Packet(p) if p.ptype == canon::PINGRESP => break,
+                Got::Packet(_) => {}
+                Got::Closed | Got::Bad(_) => break,
+            }
+        }
+        let snap = b.barrier().await?;
+        if !c.client_id.is_empty() {
+            obs.in_connection_map = snap.connection_map.iter().any(|(id, _)| *id == c.client_id);
+        } else {
+            obs.in_connection_map = snap.connection_map.iter().any(|(id, _)| id.starts_with("rumqtt-"));
+        }
+    } else if expect_admission || matches!(out, ConnOutcome::Ack { .. }) {
+        // refused: wait for the broker to end the connection
+        x.until_closed().await?;
+    } else {
+        x.until_closed().await?;
+    }
+    x.close();
+    let end = x.join().await?;
+    obs.task = match &end {
+        TaskEnd::Returned => "returned".into(),
+        TaskEnd::Panicked { location, message } => {
+            obs.task_panic_site = Some(location.split(':').next().unwrap_or("?").to_owned());
+            format!("panicked at {location}: {message}")
+        }
+    };
+    // did the probe publish reach the witness? (sentinel through the same log)
+    b.barrier().await?;
+    let s = format!("sentinel:{}", c.n).into_bytes();
+    cx.publisher.publish(format!("wit/s{}", c.n).as_bytes(), &s, 0, false, vec![]).await?;
+    let before = cx.witness.pubs.len();
+    if !cx.witness.until_payload(&s).await? {
+        return Err(S6Err::Harness("witness lost its connection".into()));
+    }
+    obs.witness_got_probe = cx.witness.pubs[before..].iter().any(|p| p.payload == probe_payload);
+    Ok(obs)
+}
+
+fn adm_record(c: &AdmCase, oracle: &str, why: &str, msg: String) -> Record {
+    Record::new("C19", oracle, msg)
+        .fact("substrate", "S6")
+        .fact("listener", if c.v5 { "v5" } else { "v4" })
+        .fact("auth", format!("{:?}", auth_cfg(c.auth)).split(['(', ' ', '{']).next().unwrap_or("").to_owned())
+        .fact("first", format!("{:?}", c.first).split(['(', ' ']).next().unwrap_or("").to_owned())
+        .fact("reason", why)
+}
+
+fn check_adm(c: &AdmCase, obs: &AdmObs, stats: &mut Stats) -> Option<Record> {
+    match admissible(c) {
+        Verdict::Open => {
+            stats.oracle("admission-open");
+            stats.op(if obs.connack_success { "open:accepted" } else { "open:refused" });
+            None
+        }
+        Verdict::Inadmissible(why) => {
+            stats.oracle("inadmissible-refused");
+            stats.op(&format!("inadmissible:{why}"));
+            if obs.connack_success {
+                return Some(adm_record(c, "inadmissible-accepted", why, format!("first packet is inadmissible ({why}) but got a successful CONNACK")));
+            }
+            if obs.suback || obs.witness_got_probe || obs.in_connection_map {
+                return Some(
+                    adm_record(
+                        c,
+                        "inadmissible-effect",
+                        why,
+                        format!(
+                            "inadmissible first packet ({why}) reached the routing core: suback={} forwarded={} registered={}",
+                            obs.suback, obs.witness_got_probe, obs.in_connection_map
+                        ),
+                    )
+                    .fact("suback", obs.suback)
+                    .fact("forwarded", obs.witness_got_probe),
+                );
+            }
+            None
+        }
+        Verdict::Admissible => {
+            stats.oracle("admissible-accepted");
+            stats.op("admissible");
+            if !obs.connack_success {
+                let mut r = adm_record(c, "admissible-refused", "valid", format!("a valid, authenticated CONNECT was refused: {} (task {})", obs.outcome, obs.task))
+                    .fact("context", "single");
+                if let Some(site) = &obs.task_panic_site {
+                    r = r.fact("task", "panicked").fact("panic_site", site.clone());
+                }
+                return Some(r);
+            }
+            if !obs.suback || !obs.witness_got_probe || !obs.in_connection_map {
+                return Some(adm_record(
+                    c,
+                    "admissible-no-effect",
+                    "valid",
+                    format!(
+                        "an admitted connection had no session: suback={} forwarded={} registered={}",
+                        obs.suback, obs.witness_got_probe, obs.in_connection_map
+                    ),
+                ));
+            }
+            None
+        }
+    }
+}
+
+const IDS_OK: &[&str] = &["dev", "a", "A-1_b.c", "é漢", "0", "with space", "x%y", "very-long-client-identifier-0123456789-0123456789"];
+const IDS_BAD: &[&str] = &["+", "#", "$", "/", "a/b", "a+b", "#x", "x#", "$SYS", "sport/+/x", "a$", "/x", "x/"];
+
+fn logins() -> Vec<(Option<String>, Option<String>)> {
+    let s = |x: &str| Some(x.to_owned());
+    vec![
+        (None, None),
+        (s("alice"), s("wonder")),
+        (s("alice"), s("wrong")),
+        (s("alice"), s("wonde")),
+        (s("alice"), s("wonderx")),
+        (s("alice"), None),
+        (s("mallory"), s("wonder")),
+        (s(""), s("")),
+        (s("bob"), s("builder")),
+        (s("carol"), s("sing")),
+        (s("ALICE"), s("wonder")),
+    ]
+}
+
+fn base_case(n: u64, v5: bool) -> AdmCase {
+    AdmCase {
+        n,
+        v5,
+        auth: 0,
+        first: First::Connect,
+        client_id: format!("adm{n}"),
+        clean: true,
+        keep_alive: 30,
+        user: None,
+        pass: None,
+        will: false,
+        chunks: 1,
+        pipelined: false,
+    }
+}
+
+/// Directed enumerations (exhaustive small scopes)
+fn directed_cases(counter: &mut u64, rng: &mut Rng, shard: usize, shards: usize) -> Vec<AdmCase> {
+    let mut out = vec![];
+    let next = |counter: &mut u64| {
+        *counter += 1;
+        *counter
+    };
+    for v5 in [false, true] {
+        // every packet type as first packet
+        for t in 2..=(if v5 { 15u8 } else { 14u8 }) {
+            let mut c = base_case(next(counter), v5);
+            c.first = First::OtherPacket(t);
+            out.push(c);
+        }
+        // version / name / level
+        let mut c = base_case(next(counter), v5);
+        c.first = First::OtherVersion;
+        out.push(c);
+        for name in ["MQIsdp", "MQTX", "mqtt", "MQT", ""] {
+            let mut c = base_case(next(counter), v5);
+            c.first = First::BadName(name.into());
+            out.push(c);
+        }
+        for l in [0u8, 3, 6, 255, if v5 { 4 } else { 5 }] {
+            let mut c = base_case(next(counter), v5);
+            c.first = First::BadLevel(l);
+            out.push(c);
+        }
+        // authentication matrix
+        for auth in 0..AUTHS {
+            for (u, p) in logins() {
+                let mut c = base_case(next(counter), v5);
+                c.auth = auth;
+                c.user = u;
+                c.pass = p;
+                out.push(c);
+            }
+        }
+        // client ids
+        for id in IDS_BAD {
+            let mut c = base_case(next(counter), v5);
+            c.client_id = format!("{id}{}", c.n);
+            out.push(c);
+            let mut c = base_case(next(counter), v5);
+            c.client_id = format!("{}{id}", c.n);
+            out.push(c);
+        }
+        for id in IDS_OK {
+            let mut c = base_case(next(counter), v5);
+            c.client_id = format!("{id}{}", c.n);
+            out.push(c);
+        }
+        for clean in [true, false] {
+            let mut c = base_case(next(counter), v5);
+            c.client_id = String::new();
+            c.clean = clean;
+            out.push(c);
+        }
+        // keep-alive
+        for ka in [0u16, 1, 65535] {
+            for auth in [0usize, 1] {
+                let mut c = base_case(next(counter), v5);
+                c.keep_alive = ka;
+                c.auth = auth;
+                if auth == 1 {
+                    c.user = Some("alice".into());
+                    c.pass = Some("wonder".into());
+                }
+                out.push(c);
+            }
+        }
+        // every proper prefix of one CONNECT
+        let mut proto = base_case(0, v5);
+        proto.client_id = "trunc".into();
+        proto.user = Some("alice".into());
+        proto.pass = Some("wonder".into());
+        let full = canon::encode(&connect_canon(&proto, if v5 { 5 } else { 4 })).len();
+        for k in 0..full {
+            let mut c = base_case(next(counter), v5);
+            c.client_id = "trunc".into();
+            c.user = proto.user.clone();
+            c.pass = proto.pass.clone();
+            c.first = First::Truncated(k);
+            out.push(c);
+        }
+    }
+    let _ = rng;
+    // shards split the directed list
+    out.into_iter().enumerate().filter(|(i, _)| i % shards == shard % shards).map(|(_, c)| c).collect()
+}
+
+fn random_case(n: u64, rng: &mut Rng) -> AdmCase {
+    let v5 = rng.chance(1, 2);
+    let mut c = base_case(n, v5);
+    c.auth = rng.below(AUTHS as u64) as usize;
+    let (u, p) = rng.pick(&logins()).clone();
+    // mostly right credentials so that the other clauses are reached behind authentication
+    if c.auth != 0 && rng.chance(1, 2) {
+        c.user = Some("alice".into());
+        c.pass = Some("wonder".into());
+    } else {
+        c.user = u;
+        c.pass = p;
+    }
+    c.client_id = match rng.below(10) {
+        0 => String::new(),
+        1 | 2 => format!("{}{}", rng.pick(IDS_BAD), n),
+        3 => format!("{}{}", n, rng.pick(IDS_BAD)),
+        _ => format!("{}{}", rng.pick(IDS_OK), n),
+    };
+    c.clean = rng.chance(2, 3);
+    c.keep_alive = match rng.below(8) {
+        0 => 0,
+        1 => 1,
+        2 => 65535,
+        _ => rng.range(2, 600) as u16,
+    };
+    c.will = rng.chance(1, 4);
+    c.chunks = *rng.pick(&[1, 1, 2, 3, 7]);
+    c.pipelined = rng.chance(1, 4);
+    c.first = match rng.below(12) {
+        0 => First::OtherVersion,
+        1 => First::BadLevel(*rng.pick(&[0, 3, 6, 7])),
+        2 => First::OtherPacket(rng.range(2, if v5 { 15 } else { 14 }) as u8),
+        3 => First::Truncated(rng.range(0, 40) as usize),
+        4 => {
+            let len = rng.range(1, 24) as usize;
+            let mut b = canon::gen_bytes(rng, len);
+            if rng.chance(1, 2) {
+                b[0] = 0x10;
+            }
+            First::Garbage(b)
+        }
+        _ => First::Connect,
+    };
+    c
+}
+
+fn adm_shape(c: &AdmCase) -> u64 {
+    let id_class = if c.client_id.is_empty() {
+        "empty"
+    } else if c.client_id.chars().any(|ch| "+$#/".contains(ch)) {
+        "meta"
+    } else {
+        "ok"
+    };
+    let first = match &c.first {
+        First::Truncated(k) => format!("T{k}"),
+        First::Garbage(b) => format!("G{}:{:02x}", b.len(), b[0]),
+        f => format!("{f:?}"),
+    };
+    let ka = match c.keep_alive {
+        0 => 0,
+        1 => 1,
+        65535 => 3,
+        _ => 2,
+    };
+    fnv(format!("{}|{}|{first}|{id_class}|{}|{ka}|{:?}|{:?}|{}|{}|{}", c.v5, c.auth, c.clean, c.user, c.pass, c.will, c.chunks.min(3), c.pipelined).as_bytes())
+}
+
+fn adm_doc(c: &AdmCase, obs: &AdmObs) -> Value {
+    json!({"substrate": "S6", "part": "admission", "case": c, "observed": obs,
+           "auth_config": format!("{:?}", auth_cfg(c.auth)), "oracle_says": format!("{:?}", admissible(c))})
+}
+
+struct AdmBroker {
+    b: Broker,
+    witness: Raw,
+    publisher: Raw,
+}
+
+fn adm_broker(rt: &Rt, tag: u64) -> Result<AdmBroker, S6Err> {
+    let b = Broker::start(rt, s6::router_config(64), listeners());
+    let (witness, publisher) = rt.block_on(async {
+        let mut w = helper_client(&b, Ver::V4, &format!("c19wit{tag}")).await?;
+        if w.subscribe("wit/#", 0, None).await?.is_none() {
+            return Err(S6Err::Harness("witness got no SUBACK".into()));
+        }
+        let p = helper_client(&b, Ver::V4, &format!("c19pub{tag}")).await?;
+        Ok((w, p))
+    })?;
+    Ok(AdmBroker { b, witness, publisher })
+}
+
+fn run_admission(ctx: &Ctx, rt: &Rt, cases: &[AdmCase], rng: &mut Rng, stats: &mut Stats) {
+    let mut tag = cases.first().map(|c| c.n).unwrap_or(0);
+    let mut ab: Option<AdmBroker> = None;
+    let mut on_broker = 0;
+    for c in cases {
+        if ab.is_none() || on_broker >= 400 {
+            tag += 1;
+            match adm_broker(rt, tag) {
+                Ok(x) => ab = Some(x),
+                Err(e) => {
+                    stats.inconclusive.push(format!("S6 admission broker: {e}"));
+                    return;
+                }
+            }
+            on_broker = 0;
+        }
+        on_broker += 1;
+        let a = ab.as_mut().unwrap();
+        let bytes = first_bytes(c, rng);
+        let expect_admission = admissible(c) == Verdict::Admissible;
+        let r = {
+            let mut cx = AdmCtx {
+                b: &a.b,
+                witness: &mut a.witness,
+                publisher: &mut a.publisher,
+            };
+            rt.block_on(run_adm(&mut cx, c, &bytes, expect_admission))
+        };
+        match r {
+            Ok(obs) => {
+                stats.evaluations += 1;
+                stats.shapes.insert(adm_shape(c));
+                stats.op(&format!("first:{}", format!("{:?}", c.first).split(['(', ' ']).next().unwrap_or("")));
+                if c.chunks > 1 {
+                    stats.corner("connect-in-several-writes");
+                }
+                if c.pipelined {
+                    stats.corner("packets-pipelined-behind-connect");
+                }
+                if let Some(rec) = check_adm(c, &obs, stats) {
+                    match judge(ctx, stats, rec, || adm_doc(c, &obs)) {
+                        Judged::Known(_) | Judged::Violation => {}
+                    }
+                    ab = None;
+                } else if stats.samples.len() < 2 && c.auth != 0 && c.first == First::Connect {
+                    stats.sample(adm_doc(c, &obs));
+                }
+            }
+            Err(S6Err::RouterGone(p)) => {
+                let rec = Record::new("C19", "router-panic", format!("router thread ended during admission: {p:?}"))
+                    .fact("site", p.as_ref().map(crate::common::panic_site).unwrap_or_default());
+                judge(ctx, stats, rec, || json!({"substrate": "S6", "part": "admission", "case": c}));
+                ab = None;
+            }
+            Err(e) => {
+                stats.inconclusive.push(format!("S6 admission case {}: {e}", c.n));
+                ab = None;
+            }
+        }
+        if stats.violations.len() >= 3 || stats.inconclusive.len() >= 5 {
+            break;
+        }
+    }
+}
+
+// ---------------------------------------------------------------- part B: uniqueness and limit
+
+#[derive(Clone, Debug, PartialEq, Eq, Serialize, Deserialize)]
+pub enum StormOp {
+    /// CONNECT with this client id on the v4 (false) / v5 (true) listener
+    Connect { id: String, v5: bool },
+    /// several CONNECTs written before any answer is read
+    Burst(Vec<(String, bool)>),
+    /// close the socket of the live connection of this client id
+    Close(String),
+    /// DISCONNECT packet, then close
+    Disconnect(String),
+}
+
+#[derive(Clone, Debug, Serialize, Deserialize)]
+pub struct Storm {
+    pub n: u64,
+    pub max: usize,
+    pub ops: Vec<StormOp>,
+    /// client ids refused at the limit are used again (reproduces a known defect)
+    pub reuse_refused_ids: bool,
+}
+
+#[derive(Default)]
+struct Live {
+    /// model: client id -> connection (None once the model considers it ended)
+    conns: Vec<(String, Raw)>,
+}
+
+fn storm_record(st: &Storm, oracle: &str, step: usize, msg: String) -> Record {
+    Record::new("C19", oracle, msg)
+        .fact("substrate", "S6")
+        .fact("max_connections", st.max as u64)
+        .fact("step", step as u64)
+}
+
+/// Ping every connection the model holds live; returns the ids of those that answered and
+/// removes the others from the model (reported, not judged: closing a connection is C14's subject)
+async fn probe_live(live: &mut Live, notes: &mut Vec<String>) -> Result<Vec<String>, S6Err> {
+    let mut answered = vec![];
+    let mut keep = vec![];
+    for (id, mut r) in live.conns.drain(..) {
+        if r.ping().await? {
+            answered.push(id.clone());
+            keep.push((id, r));
+        } else {
+            notes.push(format!("connection of '{id}' no longer answers"));
+            r.close();
+            r.join().await?;
+        }
+    }
+    live.conns = keep;
+    Ok(answered)
+}
+
+async fn run_storm(b: &Broker, st: &Storm, log: &mut Vec<String>) -> Result<Option<Record>, S6Err> {
+    let mut live = Live::default();
+    let mut burned: Vec<String> = vec![];
+    let mut takeovers = 0u64;
+    let mut refused_at_limit = 0u64;
+    for (step, op) in st.ops.iter().enumerate() {
+        let mut attempts: Vec<(String, bool)> = vec![];
+        match op {
+            StormOp::Connect { id, v5 } => attempts.push((id.clone(), *v5)),
+            StormOp::Burst(v) => attempts = v.clone(),
+            StormOp::Close(id) | StormOp::Disconnect(id) => {
+                if let Some(pos) = live.conns.iter().position(|(i, _)| i == id) {
+                    let (_, mut r) = live.conns.remove(pos);
+                    if matches!(op, StormOp::Disconnect(_)) {
+                        r.disconnect().await?;
+                    }
+                    r.close();
+                    r.join().await?;
+                    b.barrier().await?;
+                    log.push(format!("{step}: {op:?}"));
+                } else {
+                    log.push(format!("{step}: {op:?} (not live, skipped)"));
+                }
+                continue;
+            }
+        }
+        if !st.reuse_refused_ids {
+            attempts.retain(|(id, _)| !burned.contains(id));
+        }
+        if attempts.is_empty() {
+            continue;
+        }
+        let before = live.conns.len();
+        let live_ids: Vec<String> = live.conns.iter().map(|(i, _)| i.clone()).collect();
+        let distinct_of = |a: &Vec<(String, bool)>| {
+            let mut d: Vec<String> = vec![];
+            for (id, _) in a {
+                if !d.contains(id) {
+                    d.push(id.clone());
+                }
+            }
+            d
+        };
+        let mut distinct = distinct_of(&attempts);
+        let brand_new = distinct.iter().filter(|i| !live_ids.contains(i)).count();
+        if !st.reuse_refused_ids {
+            // two connection tasks of one client id on one listener race on the listener's will-handler
+            // table, and an attempt that loses leaves a dead entry there (known finding): at most one
+            // attempt per (client id, listener) in a burst
+            let mut once: Vec<(String, bool)> = vec![];
+            for (id, v5) in attempts.drain(..) {
+                let at_limit = before + brand_new > st.max;
+                let dup = once.iter().any(|(i, v)| *i == id && (*v == v5 || at_limit));
+                if !dup {
+                    once.push((id, v5));
+                }
+            }
+            attempts = once;
+            distinct = distinct_of(&attempts);
+        }
+        let multi: Vec<String> = distinct.iter().filter(|d| attempts.iter().filter(|(i, _)| i == *d).count() > 1).cloned().collect();
+        takeovers += (attempts.len() - brand_new) as u64;
+        // write every CONNECT first, then read the answers
+        let mut opened: Vec<(String, Raw)> = vec![];
+        for (id, v5) in &attempts {
+            let ver = if *v5 { Ver::V5 } else { Ver::V4 };
+            let mut r = b.open(b.listener(ver));
+            r.send(&s6::connect(s6::ver_num(ver), id, true, 60)).await?;
+            opened.push((id.clone(), r));
+        }
+        let mut outcomes = vec![];
+        for (id, r) in opened.iter_mut() {
+            let out = r.connack().await?;
+            outcomes.push((id.clone(), out));
+        }
+        b.barrier().await?;
+        let _ = &distinct;
+        let mut accepted_now = 0;
+        let mut summary = vec![];
+        let mut panic_site: Option<String> = None;
+        for ((id, mut r), (_, out)) in opened.into_iter().zip(outcomes.iter()) {
+            summary.push(format!("{id}:{}", if out.accepted() { "accepted" } else { "refused" }));
+            if out.accepted() {
+                accepted_now += 1;
+                live.conns.push((id, r));
+            } else {
+                let end = {
+                    r.until_closed().await?;
+                    r.close();
+                    r.join().await?
+                };
+                // refusal is only justified by the limit
+                if let TaskEnd::Panicked { location, .. } = &end {
+                    panic_site = Some(location.split(':').next().unwrap_or("?").to_owned());
+                }
+                // (an attempt overtaken by a newer connection of the same client id in the same burst
+                // may be replaced before its CONNACK is written: judged by the post-condition below)
+                let room_for_all = before + brand_new <= st.max;
+                if room_for_all && !multi.contains(&id) {
+                    let mut rec = storm_record(
+                        st,
+                        "admissible-refused",
+                        step,
+                        format!(
+                            "step {step}: valid CONNECT of '{id}' refused ({}) although there was room: {} live before the step, {} new client id(s), max_connections {} (task {:?})",
+                            out.brief(),
+                            before,
+                            brand_new,
+                            st.max,
+                            end
+                        ),
+                    )
+                    .fact("context", "storm")
+                    .fact("id_refused_before", burned.contains(&id));
+                    if let TaskEnd::Panicked { location, .. } = &end {
+                        rec = rec.fact("task", "panicked").fact("panic_site", location.split(':').next().unwrap_or("?"));
+                    }
+                    log.push(format!("{step}: {op:?} -> {summary:?}"));
+                    return Ok(Some(rec));
+                }
+                if !room_for_all {
+                    refused_at_limit += 1;
+                }
+                if !burned.contains(&id) {
+                    burned.push(id);
+                }
+            }
+        }
+        b.barrier().await?;
+        log.push(format!("{step}: {op:?} -> {summary:?}"));
+        let _ = accepted_now;
+        // who is alive now?
+        let mut notes = vec![];
+        let answered = probe_live(&mut live, &mut notes).await?;
+        for n in notes {
+            log.push(format!("{step}:   {n}"));
+        }
+        if answered.len() > st.max {
+            return Ok(Some(
+                storm_record(st, "limit-exceeded", step, format!("step {step}: {} connections answer PINGREQ, max_connections = {} ({answered:?})", answered.len(), st.max))
+                    .fact("answering", answered.len() as u64),
+            ));
+        }
+        if before + brand_new <= st.max {
+            for id in &multi {
+                if !answered.contains(id) {
+                    let mut rec = storm_record(st, "admissible-refused", step, format!("step {step}: several valid CONNECTs of '{id}' with room for all of them, none of them is live afterwards (panic in a connection task: {panic_site:?})"))
+                        .fact("context", "storm-same-id");
+                    if let Some(site) = &panic_site {
+                        rec = rec.fact("task", "panicked").fact("panic_site", site.clone());
+                    }
+                    return Ok(Some(rec));
+                }
+            }
+        }
+        let mut seen: Vec<&String> = vec![];
+        for id in &answered {
+            if seen.contains(&id) {
+                return Ok(Some(storm_record(st, "duplicate-client-id", step, format!("step {step}: two live connections answer PINGREQ for client id '{id}'"))));
+            }
+            seen.push(id);
+        }
+        // a burst of k distinct ids with room for all: every one must be live now
+        let snap = b.barrier().await?;
+        let mut ids: Vec<&String> = snap.connection_map.iter().map(|(i, _)| i).collect();
+        ids.sort();
+        let n_ids = ids.len();
+        ids.dedup();
+        let mut slots: Vec<usize> = snap.connection_map.iter().map(|(_, s)| *s).collect();
+        slots.sort();
+        let n_slots = slots.len();
+        slots.dedup();
+        if ids.len() != n_ids || slots.len() != n_slots {
+            return Ok(Some(storm_record(st, "duplicate-client-id", step, format!("step {step}: router connection_map is not injective: {:?}", snap.connection_map))));
+        }
+        if snap.connections.len() > st.max {
+            return Ok(Some(
+                storm_record(st, "limit-exceeded", step, format!("step {step}: router holds {} connections, max_connections = {}", snap.connections.len(), st.max))
+                    .fact("registered", snap.connections.len() as u64),
+            ));
+        }
+        for id in &answered {
+            if !snap.connection_map.iter().any(|(i, _)| i == id) {
+                return Ok(Some(storm_record(st, "live-not-registered", step, format!("step {step}: '{id}' answers PINGREQ but is not in the router's connection_map"))));
+            }
+        }
+    }
+    log.push(format!("takeovers={takeovers} refused_at_limit={refused_at_limit}"));
+    // end: close everything
+    for (_, mut r) in live.conns.drain(..) {
+        r.disconnect().await?;
+        r.close();
+        r.join().await?;
+    }
+    b.barrier().await?;
+    Ok(None)
+}
+
+fn gen_storm(n: u64, rng: &mut Rng, reuse: bool) -> Storm {
+    let max = rng.range(1, 3) as usize;
+    let len = rng.range(8, 30);
+    let mut fresh = 0u64;
+    let pool: Vec<String> = (0..(max + 2)).map(|i| format!("s{n}_{}", (b'a' + i as u8) as char)).collect();
+    let mut ops = vec![];
+    for _ in 0..len {
+        let pick_id = |rng: &mut Rng, fresh: &mut u64| -> String {
+            if rng.chance(1, 6) {
+                *fresh += 1;
+                format!("s{n}_f{fresh}")
+            } else {
+                rng.pick(&pool).clone()
+            }
+        };
+        match rng.weighted(&[10, 4, 3, 3]) {
+            0 => ops.push(StormOp::Connect {
+                id: pick_id(rng, &mut fresh),
+                v5: rng.chance(1, 2),
+            }),
+            1 => {
+                let k = rng.range(2, 5);
+                let same = rng.chance(1, 2);
+                let first = pick_id(rng, &mut fresh);
+                let v: Vec<(String, bool)> = (0..k)
+                    .map(|_| (if same { first.clone() } else { pick_id(rng, &mut fresh) }, rng.chance(1, 2)))
+                    .collect();
+                ops.push(StormOp::Burst(v));
+            }
+            2 => ops.push(StormOp::Close(rng.pick(&pool).clone())),
+            _ => ops.push(StormOp::Disconnect(rng.pick(&pool).clone())),
+        }
+    }
+    Storm {
+        n,
+        max,
+        ops,
+        reuse_refused_ids: reuse,
+    }
+}
+
+fn storm_shape(st: &Storm) -> u64 {
+    let s: String = st
+        .ops
+        .iter()
+        .map(|o| match o {
+            StormOp::Connect { .. } => "c".to_owned(),
+            StormOp::Burst(v) => format!("b{}", v.len()),
+            StormOp::Close(_) => "x".to_owned(),
+            StormOp::Disconnect(_) => "d".to_owned(),
+        })
+        .collect();
+    fnv(format!("{}|{}|{s}", st.max, st.reuse_refused_ids).as_bytes())
+}
+
+fn run_storms(ctx: &Ctx, rt: &Rt, storms: &[Storm], stats: &mut Stats) {
+    // one broker per limit, used again by the next storm with that limit as long as the previous one
+    // ended cleanly (every connection closed and joined, router empty); client ids are unique per storm
+    let mut brokers: Vec<Option<Broker>> = (0..4).map(|_| None).collect();
+    let mut uses = [0u32; 4];
+    for st in storms {
+        let slot = st.max.min(3);
+        if uses[slot] >= 200 {
+            brokers[slot] = None;
+        }
+        if brokers[slot].is_none() {
+            brokers[slot] = Some(Broker::start(rt, s6::router_config(st.max), vec![ListenerCfg::plain(Ver::V4), ListenerCfg::plain(Ver::V5)]));
+            uses[slot] = 0;
+        }
+        uses[slot] += 1;
+        let mut log = vec![];
+        let (r, clean) = {
+            let b = brokers[slot].as_ref().unwrap();
+            let r = rt.block_on(run_storm(b, st, &mut log));
+            let clean = matches!(r, Ok(None)) && matches!(rt.block_on(b.barrier()), Ok(s) if s.connections.is_empty() && s.connection_map.is_empty());
+            (r, clean)
+        };
+        if !clean {
+            brokers[slot] = None;
+        }
+        let doc = |log: &Vec<String>| json!({"substrate": "S6", "part": "storm", "storm": st, "log": log});
+        match r {
+            Ok(None) => {
+                stats.evaluations += 1;
+                stats.shapes.insert(storm_shape(st));
+                stats.opn("storm-steps", st.ops.len() as u64);
+                stats.oraclen("uniqueness-and-limit", st.ops.len() as u64);
+                stats.corner(&format!("max-connections-{}", st.max));
+                if let Some(l) = log.last() {
+                    if let Some(t) = l.strip_prefix("takeovers=") {
+                        let mut it = t.split(" refused_at_limit=");
+                        let tk: u64 = it.next().and_then(|x| x.parse().ok()).unwrap_or(0);
+                        let rf: u64 = it.next().and_then(|x| x.parse().ok()).unwrap_or(0);
+                        if tk > 0 {
+                            *stats.corners.entry("take-over".into()).or_default() += tk;
+                        }
+                        if rf > 0 {
+                            *stats.corners.entry("refused-at-limit".into()).or_default() += rf;
+                        }
+                    }
+                }
+                if stats.samples.len() < 3 && st.ops.len() < 14 {
+                    stats.sample(doc(&log));
+                }
+            }
+            Ok(Some(rec)) => {
+                stats.evaluations += 1;
+                judge(ctx, stats, rec, || doc(&log));
+            }
+            Err(S6Err::RouterGone(p)) => {
+                let rec = Record::new("C19", "router-panic", format!("router thread ended during a connect storm: {p:?}"))
+                    .fact("site", p.as_ref().map(crate::common::panic_site).unwrap_or_default());
+                judge(ctx, stats, rec, || doc(&log));
+            }
+            Err(e) => stats.inconclusive.push(format!("S6 storm {}: {e}", st.n)),
+        }
+        if stats.violations.len() >= 3 || stats.inconclusive.len() >= 5 {
+            break;
+        }
+    }
+}
+
+/// Directed trigger of the known defect: a client id refused by the router (here: a client id
+/// with a metacharacter) connects a second time through the same listener.
+fn refused_id_twice(n: u64) -> Vec<AdmCase> {
+    let mut a = base_case(n, false);
+    a.client_id = format!("twice/{n}");
+    let mut b = a.clone();
+    b.n = n + 1;
+    let mut c = base_case(n + 2, false);
+    c.client_id = format!("after{n}");
+    vec![a, b, c]
+}
+
+// ---------------------------------------------------------------- driver
+
+fn s6_part(ctx: &Ctx) -> Stats {
+    let shards = if ctx.quick() { ctx.threads.clamp(1, 8) } else { ctx.threads.max(1) };
+    let random_total = ctx.size(24_000, 400_000);
+    let trigger_pct = if ctx.quick() { 15 } else { 5 };
+    let storms_total = ctx.size(1_600, 12_000);
+    sharded(ctx, shards, |shard, seed| {
+        let mut stats = Stats::default();
+        let mut rng = Rng::new(seed ^ 0xc19);
+        let rt = Rt::new(&format!("c19-{shard}"), 3);
+        let mut counter: u64 = (shard as u64 + 1) * 10_000_000;
+        // part A
+        let mut cases = directed_cases(&mut counter, &mut rng, shard, shards);
+        for _ in 0..(random_total / shards as u64 + 1) {
+            counter += 1;
+            cases.push(random_case(counter, &mut rng));
+        }
+        run_admission(ctx, &rt, &cases, &mut rng, &mut stats);
+        // the known trigger, in about 15 % of the shards' runs
+        if stats.violations.is_empty() && rng.chance(trigger_pct.max(15), 100) {
+            counter += 3;
+            let t = refused_id_twice(counter);
+            run_admission(ctx, &rt, &t, &mut rng, &mut stats);
+            stats.op("trigger:refused-id-twice");
+        }
+        // part B
+        let mut storms = vec![];
+        for _ in 0..(storms_total / shards as u64 + 1) {
+            counter += 1;
+            let reuse = rng.chance(trigger_pct, 100);
+            storms.push(gen_storm(counter, &mut rng, reuse));
+        }
+        if stats.violations.is_empty() {
+            run_storms(ctx, &rt, &storms, &mut stats);
+        }
+        stats
+    })
+}
+
+fn run(ctx: &Ctx) -> Stats {
+    let mut stats = s6_part(ctx);
+    stats.exhaustive_scopes.push("S6: every packet type as first packet on both listeners; every proper prefix of one CONNECT; authentication configurations {none, static, callback, both} x 11 logins; 13 metacharacter client ids as prefix and suffix".into());
+    if stats.violations.is_empty() {
+        let s4 = s4common::run(ctx, &s4parts::c19_plan());
+        stats.merge(s4);
+    }
+    stats
+}
+
+fn replay(ctx: &Ctx, doc: &Value) -> Stats {
+    if doc["substrate"] != "S6" {
+        return s4common::replay(ctx, &s4parts::c19_plan(), doc);
+    }
+    let mut stats = Stats::default();
+    let rt = Rt::new("c19-replay", 3);
+    let mut rng = Rng::new(ctx.seed);
+    if doc["part"] == "storm" {
+        match serde_json::from_value::<Storm>(doc["storm"].clone()) {
+            Ok(st) => run_storms(ctx, &rt, &[st], &mut stats),
+            Err(e) => stats.inconclusive.push(format!("replay: cannot read storm: {e}")),
+        }
+    } else {
+        match serde_json::from_value::<AdmCase>(doc["case"].clone()) {
+            Ok(c) => run_admission(ctx, &rt, &[c], &mut rng, &mut stats),
+            Err(e) => stats.inconclusive.push(format!("replay: cannot read case: {e}")),
+        }
+    }
+    stats.shapes.insert(1);
+    stats.shapes.insert(2);
+    stats
 }
 
 pub fn prop() -> Prop {
@@ -13,11 +1144,23 @@ pub fn prop() -> Prop {
         id: "C19",
         meta: Meta {
             level: "exploration",
-            rule: "not built",
-            assumptions: &[],
-            floors: &[],
+            rule: "S6 part A: first packets (well-formed CONNECT of the listener's version with generated client id / keep-alive / clean flag / login / will, split into 1-7 writes, optionally with packets pipelined behind it; CONNECT of the other version; wrong protocol name or level; every other packet type; every proper prefix of a CONNECT; random bytes) against listeners {v4, v5} x {no auth, static map, callback, both}; distinct = (listener, auth config, kind of first packet, client id class, clean, keep-alive class, login, will, chunking, pipelining). Part B: connect / burst / close / DISCONNECT histories over max_connections+2 recurring client ids against max_connections 1-3; distinct = (limit, sequence of operation kinds with burst sizes). S4: router half (op-kind sequence reaching a named corner state).",
+            assumptions: &[
+                "connections are in-memory duplex pipes entered through Server::verif_accept; admission (mqtt_connect, handle_auth), RemoteLink::new and the router are the production code",
+                "with both a static map and a callback configured the statement does not say which decides: cases where they disagree are executed and counted (admission-open), not judged",
+                "an incomplete first packet is followed by end of input instead of waiting for the connection timeout",
+                "client ids refused once by the router are not used again on the same listener in ~85 % of the histories (known finding KF-C19-WILLHANDLER)",
+            ],
+            floors: &[
+                ("inadmissible-refused", 150),
+                ("admissible-accepted", 80),
+                ("uniqueness-and-limit", 100),
+                ("take-over", 10),
+                ("refused-at-limit", 10),
+                ("connect-in-several-writes", 20),
+            ],
         },
         run,
-        replay: None,
+        replay: Some(replay),
     }
 }
